@@ -41,7 +41,11 @@ struct DropDefer(u8);
 impl Drop for DropDefer {
     fn drop(&mut self) {
         let id = self.0;
-        def2().defer(move |s| rec(id, now_of(s)));
+        let t = Tok(20 + id); // released when the deferred closure has run, or is dropped un-run
+        def2().defer(move |s| {
+            rec(id, now_of(s));
+            drop(t);
+        });
     }
 }
 
@@ -131,6 +135,7 @@ fn dropdefer() {
     let (pa, pb, px) = (pos(A), pos(B), pos(X));
     assert!(pa < LOGN && pb < LOGN && px < LOGN, "C01/C06: a submitted closure did not run by the end of run()");
     assert!(pa < pb && pb < px && log_n() == 3, "C01: closure deferred from a Drop handler ran out of order");
+    assert!(drops(20 + X as usize) == 1, "C16: closure deferred from a Drop handler not released exactly once");
     all_saw(3, now1);
     assert!(now_of(&s) == now1, "C15: now() is not the greatest instant given");
     kani::cover!(now1 > (60, 0), "queues recreated");
@@ -359,6 +364,7 @@ fn drop_pending() {
     drop(s);
     assert!(log_n() == 0, "C01: a pending closure ran although the Stakker was dropped");
     assert!(drops(1) == 1 && drops(2) == 1 && drops(4) == 1 && drops(5) == 1, "C01/C16: a pending closure was not dropped exactly once");
+    assert!(drops(20 + X as usize) == 1, "C01/C16: a closure deferred from a Drop handler while the Stakker was being dropped was not dropped exactly once");
     kani::cover!(true, "dropped");
 }
 
@@ -378,84 +384,84 @@ macro_rules! run_harness {
 //   @assume feature set multi-stakker,no-unsafe-queue,inter-thread (Kani cannot compile the TCell/TLCell/global/
 //           thread-local variants: DESIGN P9); BTreeMap modelled by harness/model/vmap.rs
 
-// @verif prop=C01,C15,C06,C18 tier=quick timeout=400 mem=24 unwind=12 unwindset=drop_glue::<\[.*Stakker\)>\]>\.0$:1 alt=ms-nu
+// @verif prop=C01,C15,C06,C18 tier=quick timeout=1200 mem=24 unwind=12 unwindset=drop_glue::<\[.*Stakker\)>\]>\.0$:1 alt=ms-nu
 // @enc Stakker::{new,run} Core::{defer,deferrer,now,start_instant} Stakker::next_expiry Deferrer::{defer,clone,swap_queue,set_queue} deferrer/inline.rs queue/boxed.rs
 // @sym payload; idle flag; run instant t0+(0..200 s, any ns) (both sides of the 60 s queue-recreation branch)
 // @bound fixed closure program: roots A,B; A defers C (Core::defer) and D (Deferrer); C defers E; one run()
 // @stub std::hash::RandomState::new -> fixed keys
 // @assume multi-stakker,no-unsafe-queue build; closures' Vec dropped only when empty (checked by unwinding assertion)
 run_harness!(r_nested, nested);
-// @verif prop=C01,C15,C18 tier=quick timeout=400 mem=24 unwind=12 unwindset=drop_glue::<\[.*Stakker\)>\]>\.0$:1 alt=ms-nu
+// @verif prop=C01,C15,C18 tier=quick timeout=1200 mem=24 unwind=12 unwindset=drop_glue::<\[.*Stakker\)>\]>\.0$:1 alt=ms-nu
 // @enc Stakker::{new,run} Core::{defer,deferrer,now} Deferrer::defer (from a Drop handler) Deferrer::set_queue (recreation)
 // @sym run instant t0+(0..200 s, any ns)
 // @bound A (captures a value whose Drop defers X), B; one run
 // @stub std::hash::RandomState::new -> fixed keys
 // @assume multi-stakker,no-unsafe-queue build
 run_harness!(r_dropdefer, dropdefer);
-// @verif prop=C19,C15 tier=quick timeout=900 mem=24 unwind=12 unwindset=drop_glue::<\[.*Stakker\)>\]>\.0$:1,::advance\.1$:2,::advance\.0$:3,::add\.0$:2,::add\.1$:1
+// @verif prop=C19,C15 tier=quick timeout=1200 mem=24 unwind=12 unwindset=drop_glue::<\[.*Stakker\)>\]>\.0$:1,::advance\.1$:2,::advance\.0$:3,::add\.0$:2,::add\.1$:1
 // @enc Stakker::{run,next_expiry,next_wait,next_wait_max} Core::{timer_add,timer_del,defer,now} Timers::{add,advance,del,next_expiry}
 // @sym timer expiry t0+(0..100 s); run instant t0+(0..200 s); probe instant and maxdur for the wait functions
 // @bound A, fixed timer T, B; one run
 // @stub std::hash::RandomState::new -> fixed keys
 // @assume multi-stakker,no-unsafe-queue build; BTreeMap modelled by harness/model/vmap.rs
 run_harness!(r_timer, timer_and_calls);
-// @verif prop=C06,C15,C01,C18 tier=quick timeout=500 mem=24 unwind=12 unwindset=drop_glue::<\[.*Stakker\)>\]>\.0$:1 alt=ms-nu
+// @verif prop=C06,C15,C01,C18 tier=quick timeout=1200 mem=24 unwind=12 unwindset=drop_glue::<\[.*Stakker\)>\]>\.0$:1 alt=ms-nu
 // @enc Stakker::run Core::{defer,lazy,now}
 // @sym run instant t0+(0..200 s); idle flag
 // @bound lazy L0; main A (submits lazy L1 -> main F + lazy L2; main C); one run
 // @stub std::hash::RandomState::new -> fixed keys
 // @assume multi-stakker,no-unsafe-queue build
 run_harness!(r_lazy, lazy_order);
-// @verif prop=C06,C15,C18 tier=quick timeout=500 mem=24 unwind=12 unwindset=drop_glue::<\[.*Stakker\)>\]>\.0$:1 alt=ms-nu
+// @verif prop=C06,C15,C18,C01 tier=quick timeout=1200 mem=24 unwind=12 unwindset=drop_glue::<\[.*Stakker\)>\]>\.0$:1 alt=ms-nu
 // @enc Stakker::run Core::{defer,idle,now}
 // @sym run instant t0+(0..200 s)
 // @bound idle I1 (defers X), idle I2, main A; run(idle)
 // @stub std::hash::RandomState::new -> fixed keys
 // @assume multi-stakker,no-unsafe-queue build
 run_harness!(r_idle_req, idle_req);
-// @verif prop=C06,C15,C18 tier=quick timeout=500 mem=24 unwind=12 unwindset=drop_glue::<\[.*Stakker\)>\]>\.0$:1 alt=ms-nu
+// @verif prop=C06,C15,C18 tier=quick timeout=1200 mem=24 unwind=12 unwindset=drop_glue::<\[.*Stakker\)>\]>\.0$:1 alt=ms-nu
 // @enc Stakker::run Core::{defer,idle,now}
 // @sym run instant t0+(0..200 s)
 // @bound idle I1, idle I2, main A; run(no idle)
 // @stub std::hash::RandomState::new -> fixed keys
 // @assume multi-stakker,no-unsafe-queue build
 run_harness!(r_idle_noreq, idle_noreq);
-// @verif prop=C06,C15 tier=quick timeout=500 mem=24 unwind=12 unwindset=drop_glue::<\[.*Stakker\)>\]>\.0$:1
+// @verif prop=C06,C15 tier=quick timeout=1200 mem=24 unwind=12 unwindset=drop_glue::<\[.*Stakker\)>\]>\.0$:1
 // @enc Stakker::run Core::{defer,idle,now}
 // @sym run instant t0+(0..200 s); idle flag of the first run
 // @bound main A submits idle I2; run; run(idle)
 // @stub std::hash::RandomState::new -> fixed keys
 // @assume multi-stakker,no-unsafe-queue build
 run_harness!(r_idle_inner, idle_inner);
-// @verif prop=C09 tier=quick timeout=500 mem=24 unwind=12 unwindset=drop_glue::<\[.*Stakker\)>\]>\.0$:1,::add\.0$:2,::add\.1$:1
+// @verif prop=C09 tier=quick timeout=1200 mem=24 unwind=12 unwindset=drop_glue::<\[.*Stakker\)>\]>\.0$:1,::add\.0$:2,::add\.1$:1
 // @enc Stakker::{next_expiry,next_wait,next_wait_max} Core::timer_add Timers::{add,next_expiry}
 // @sym timer expiry t0+(0..100 s); probe instant t0+(0..200 s) (before and after the expiry); maxdur 0..255 s
 // @bound no timer, then one fixed timer; no run
 // @stub std::hash::RandomState::new -> fixed keys
 // @assume multi-stakker,no-unsafe-queue build; BTreeMap modelled by harness/model/vmap.rs
 run_harness!(r_wait, wait_functions);
-// @verif prop=C15,C01 tier=quick timeout=500 mem=24 unwind=12 unwindset=drop_glue::<\[.*Stakker\)>\]>\.0$:1
+// @verif prop=C15,C01 tier=quick timeout=1200 mem=24 unwind=12 unwindset=drop_glue::<\[.*Stakker\)>\]>\.0$:1
 // @enc Stakker::run Core::{defer,deferrer,now,start_instant} Deferrer::defer
 // @sym second run instant t0+(0..200 s, any ns): earlier, equal or later than the first (t0+3 s)
 // @bound A; run(t0+3 s); G, H (Deferrer handle from before); run(any)
 // @stub std::hash::RandomState::new -> fixed keys
 // @assume multi-stakker,no-unsafe-queue build
 run_harness!(r_second_run, second_run_plain);
-// @verif prop=C15,C01,C18 tier=quick timeout=500 mem=24 unwind=12 unwindset=drop_glue::<\[.*Stakker\)>\]>\.0$:1 alt=ms-nu
+// @verif prop=C15,C01,C18 tier=quick timeout=1200 mem=24 unwind=12 unwindset=drop_glue::<\[.*Stakker\)>\]>\.0$:1 alt=ms-nu
 // @enc Stakker::run (queue recreation branch) Deferrer::{set_queue,defer}
 // @sym second run instant t0+(0..200 s, any ns)
 // @bound A; run(t0+61 s) which recreates all queues; G, H (Deferrer handle from before the recreation); run(any)
 // @stub std::hash::RandomState::new -> fixed keys
 // @assume multi-stakker,no-unsafe-queue build
 run_harness!(r_second_run_recreated, second_run_recreated);
-// @verif prop=C07,C08,C10,C15,C19,C18 tier=thorough timeout=500 mem=24 unwind=12 unwindset=drop_glue::<\[.*Stakker\)>\]>\.0$:1,::advance\.1$:2,::advance\.0$:3,::add\.0$:2,::add\.1$:1
+// @verif prop=C07,C08,C10,C15,C19,C18 tier=thorough timeout=1200 mem=24 unwind=12 unwindset=drop_glue::<\[.*Stakker\)>\]>\.0$:1,::advance\.1$:2,::advance\.0$:3,::add\.0$:2,::add\.1$:1
 // @enc Stakker::{run,next_expiry} Core::{timer_add,timer_del,defer,now} Timers::{add,advance,del}
 // @sym timer expiry t0+(2..100 s); second run instant t0+(0..200 s): before, at, after the first (t0+1 s) and the expiry
 // @bound timer; run(t0+1 s); G; run(any); delete if pending; run(t0+300 s)
 // @stub std::hash::RandomState::new -> fixed keys
 // @assume multi-stakker,no-unsafe-queue build; BTreeMap modelled by harness/model/vmap.rs
 run_harness!(r_timer2, timer_second_run);
-// @verif prop=C01,C16,C05,C18 tier=quick timeout=400 mem=24 unwind=12 unwindset=drop_glue::<\[.*Stakker\)>\]>\.0$:3 alt=ms-nu
+// @verif prop=C01,C16,C05,C18 tier=quick timeout=1200 mem=24 unwind=12 unwindset=drop_glue::<\[.*Stakker\)>\]>\.0$:3 alt=ms-nu
 // @enc Stakker::drop Core::{defer,lazy,idle,timer_add} Deferrer::{defer,swap_queue}
 // @sym none (fixed script; drop counters)
 // @bound one pending item in each of the main, lazy, idle and timer queues; the main item's capture defers another closure from its Drop handler; Stakker dropped without running
